@@ -24,7 +24,7 @@ import (
 	relayertypes "github.com/goatnetwork/goat/x/relayer/types"
 )
 
-var byzMutations = []string{"drop-first", "dup-first", "swap-first", "two-msgs", "second-block-msg", "with-relayer-msg", "other-author", "fee-recipient", "fork-parent",
+var byzMutations = []string{"drop-first", "dup-first", "swap-first", "two-msgs", "second-block-msg", "with-relayer-msg", "other-author", "other-author-consistent", "fee-recipient", "fork-parent",
 	"beacon-root", "blob-gas", "future-ts", "goat-omit-last", "goat-omit-all", "goat-dup", "goat-reorder", "goat-flip", "goat-count", "bad-sig", "timeout-height", "memo",
 	"too-many", "garbage-first", "nil-payload", "foreign-msg-tx", "non-proposer-relayer-tx", "parent-field", "number-field", "extra-data-short"}
 
@@ -160,6 +160,33 @@ func (w *World) mutateProposal(n *Node, h int64, t time.Time, pv *cmttypes.Valid
 			return nil, false
 		}
 		m := clone()
+		m.Proposer = other.Key.Bech32()
+		raw, err := w.blockTx(n, other.Key, []sdk.Msg{m}, h, nil)
+		if err != nil {
+			return nil, false
+		}
+		return append([][]byte{raw}, rest...), true
+	case "other-author-consistent":
+		// another validator's block: authored, signed and fee-collected by it, only it is not this
+		// height's proposer
+		var other *ValActor
+		for _, v := range w.Vals {
+			if v != actor {
+				other = v
+				break
+			}
+		}
+		if other == nil || parent == nil {
+			return nil, false
+		}
+		a := attrs()
+		a.SuggestedFeeRecipient = other.Key.EthAddr()
+		np, ok := w.rebuildPayload(n, parent, a, p.BeaconRoot)
+		if !ok {
+			return nil, false
+		}
+		m := clone()
+		m.Payload = np
 		m.Proposer = other.Key.Bech32()
 		raw, err := w.blockTx(n, other.Key, []sdk.Msg{m}, h, nil)
 		if err != nil {
